@@ -24,6 +24,49 @@ def r1_visibility(text):
     return eds
 
 
+def r1p_all_public(text):
+    """alternative to R1 (units whose contracts sit on impls of public traits): every extracted item and
+    field becomes `pub`: `pub(..)` -> `pub`, and `pub ` is inserted where no visibility is written.
+    Not applied to items inside trait impls / trait declarations (the builder passes those pieces
+    through R1 only)."""
+    m = mask(text)
+    eds = []
+    for mt in re.finditer(r"(?<![A-Za-z0-9_])pub\s*\((?:crate|super|self|in [^)]*)\)", m):
+        eds.append(Edit(mt.start(), mt.end(), "pub", "R1"))
+    # item keyword at the start of the piece (after attributes)
+    k = 0
+    while True:
+        k = skip_ws(m, k)
+        if m.startswith("#", k):
+            lb = m.index("[", k)
+            k = match_close(m, lb) + 1
+            continue
+        break
+    head = re.match(r"(pub\b)?\s*(?:const\s+|async\s+|unsafe\s+)*(fn|struct|enum|trait|type|const|static)\b", m[k:])
+    if head and not head.group(1):
+        eds.append(Edit(k, k, "pub ", "R1"))
+    if head and head.group(2) == "struct":
+        # fields
+        j = k + head.end()
+        while j < len(m) and m[j] not in "{(;":
+            if m[j] == "<":
+                from .rustlex import match_angle
+                j = match_angle(m, j)
+            j += 1
+        if j < len(m) and m[j] in "{(":
+            close = match_close(m, j)
+            for (a, b) in split_top_level(m, j + 1, close, ","):
+                a2 = skip_ws(m, a)
+                while m.startswith("#", a2):
+                    lb = m.index("[", a2)
+                    a2 = skip_ws(m, match_close(m, lb) + 1)
+                if a2 >= b or m[a2:b].strip() == "":
+                    continue
+                if not re.match(r"pub\b", m[a2:]):
+                    eds.append(Edit(a2, a2, "pub ", "R1"))
+    return eds
+
+
 # ---------------------------------------------------------------- R2 attributes / docs
 DROP_DERIVES = ("Debug",)
 DROP_ATTRS = ("inline", "must_use", "doc", "cfg_attr", "allow", "expect", "track_caller", "cold",
@@ -513,6 +556,7 @@ ITERATED = {"R6", "R7", "R10", "R11"}
 
 TABLE = {
     "R1": r1_visibility,
+    "R1p": r1p_all_public,
     "R2": r2_attrs,
     "R3": r3_assert_eq,
     "R4": r4_logging,
@@ -526,7 +570,7 @@ TABLE = {
     "R13": r13_for_ref,
     "R14": r14_const_fn,
 }
-ORDER = ["R2", "R1", "R14", "R4", "R3", "R5", "R6", "R13", "R11", "R7", "R8", "R12", "R10"]
+ORDER = ["R2", "R1", "R1p", "R14", "R4", "R3", "R5", "R6", "R13", "R11", "R7", "R8", "R12", "R10"]
 
 EXEC_TOUCHING = {"R3", "R4", "R6", "R7", "R8", "R10", "R11", "R12", "R13", "R14"}
 
